@@ -42,6 +42,28 @@ Definition reencode_error (e : json) : json :=
   | other => other
   end.
 
+(* ---- arbitrary nesting of ErrorList values: the service errors among the leaves, in order; whether every leaf is
+   one; the number of leaves (each EOther leaf is wrapped into exactly one error) ---- *)
+Fixpoint service_leaves (e : goerr) : list json :=
+  match e with
+  | EOne x => [x]
+  | EList l => (fix go (l : list goerr) := match l with [] => [] | x :: t => service_leaves x ++ go t end) l
+  | EOther _ => []
+  end.
+Fixpoint all_service (e : goerr) : bool :=
+  match e with
+  | EOne _ => true
+  | EList l => (fix go (l : list goerr) := match l with [] => true | x :: t => all_service x && go t end) l
+  | EOther _ => false
+  end.
+Fixpoint leaf_count (e : goerr) : nat :=
+  match e with
+  | EOne _ => 1
+  | EList l => (fix go (l : list goerr) := match l with [] => 0 | x :: t => leaf_count x + go t end) l
+  | EOther _ => 1
+  end.
+
+
 (* one failing depth: groups of sub-requests (one group per service) fail with these error lists; AsyncMapReduce's
    reducer appends them in completion order [pi] (a permutation of the group indexes) *)
 Definition client_errors (groups : list (list json)) (pi : list nat) : list json :=
